@@ -56,7 +56,10 @@ fn keyset() -> &'static [&'static [u8]] {
     static PLAIN: &[&[u8]] = &[b"a", b"b", b"c", b"d", b"e", b"f", b"g", b"h"];
     static PREFIX: &[&[u8]] = &[b"a", b"aa", b"aaa", b"ab", b"b", b"ba", b"bb", b"c"];
     static BIN: &[&[u8]] = &[b"\x00", b"\x00\x00", b"\x00\xff", b"\x7f", b"\xfe\xff\xff", b"\xff", b"\xff\x00", b"\xff\xff"];
+    // the empty key as a stored key (only for table facts: as a seek target it coincides with "before every key")
+    static EMPTY1: &[&[u8]] = &[b"", b"\x00", b"a", b"b", b"c", b"d", b"e", b"f"];
     match std::env::var("VH_KEYSET").as_deref() {
+        Ok("empty1") => EMPTY1,
         Ok("prefix") => PREFIX,
         Ok("bin") => BIN,
         _ => PLAIN,
